@@ -63,8 +63,9 @@ Corollary set_insert_is_generated cmp l v : set_insert cmp l v = (fst (fst (inse
 Proof. rewrite insert_val_tv. unfold set_insert. destruct (insert_val cmp l v); reflexivity. Qed.
 
 Theorem find_tv cmp l v : find_gen cmp l v = Z.of_nat (SetModel.fs_find cmp l v).
-Proof. unfold find_gen, SetModel.fs_find. cbv zeta. rewrite lower_bound_full, eqb_vlen, deref_nat.
-  destruct (Nat.eqb (lb cmp l v) (length l) || cmp v (nth (lb cmp l v) l 0)); reflexivity. Qed.
+Proof. unfold find_gen, SetModel.fs_find. cbv zeta. rewrite lower_bound_full, ?eqb_vlen, ?deref_nat.
+  (* by cases on the two tests, so that the shape of the conditional in the code (a || b, or two nested ifs) does not matter *)
+  destruct (Nat.eqb (lb cmp l v) (length l)); destruct (cmp v (nth (lb cmp l v) l 0)); reflexivity. Qed.
 
 Theorem erase_key_tv cmp l v :
   erase_key_gen cmp l v = (fst (SetModel.fs_erase_key cmp l v), Z.of_nat (snd (SetModel.fs_erase_key cmp l v))).
